@@ -239,6 +239,13 @@ class Repo:
                 fields.append((st.target.id, dflt))
             elif isinstance(st, ast.FunctionDef):
                 methods[st.name] = st
+        if not is_dc and not fields and "__init__" not in methods and not node.decorator_list:
+            # an undecorated subclass of a dataclass of the same module that declares no fields of its own (only class
+            # attributes / methods) is constructed by the inherited __init__: the same fields
+            for b in node.bases:
+                base = mod.classes.get(b.id) if isinstance(b, ast.Name) else None
+                if base is not None and base.is_dataclass and not base.enum_kind:
+                    is_dc = True
         if is_dc:
             # fields (and methods) of dataclass bases defined earlier in the same module come first
             inherited: List[Tuple[str, Optional[ast.expr]]] = []
